@@ -144,6 +144,36 @@ def check(prog, run):
     C09.slot_provenance(prog, run, "R-result", classes=cls_)
     C09.classes_rules(prog, run, cls_, {"reach": "R-result", "bind": "R-result"})
     maskkind.obligations(prog, run, "R-result", ("pyoma2.algorithms.plscf",))
+    basis_sign(prog, run)
+
+
+def basis_sign(prog, run):
+    """the spectra of the two estimators are one-sided transforms with opposite conventions: run() must hand plscf.pLSCF the basis
+    function sign that goes with the estimator in the run parameters (-1 periodogram, +1 correlogram), not leave it to the default"""
+    from . import C09
+    from ..taint import TaintInterp, TC
+    run.rule("R-sign", "pLSCF.run / pLSCF_MS.run hand plscf.pLSCF sgn_basf = -1 for method_SD 'per' and +1 for 'cor'", 4)
+    PL_ = "pyoma2.functions.plscf.pLSCF"
+    for cq in ("algorithms.plscf.pLSCF", "algorithms.plscf.pLSCF_MS"):
+        ci = prog.cls(cq)
+        runf = prog.find_method(ci, "run")
+        f = rel(prog.mods[runf.mod].path)
+        for method, want in (("per", -1), ("cor", 1)):
+            cfg = f"{ci.node.name}[method_SD={method}]"
+            ti = TaintInterp(prog)
+            ti.call_function(runf, [], {}, bound=C09.make_me(prog, ci, cq, method, False))
+            calls = [(env, node) for q, env, node in ti.call_log if q == PL_]
+            if not calls:
+                run.ob("R-sign", runf.qual, "sgn_basf", None if ti.unknown else False, f"plscf.pLSCF is not called by run() ({cfg})", witness="not called", file=f, node=runf.node, config=cfg)
+                continue
+            for env, node in calls:
+                v = env.get("sgn_basf")
+                if isinstance(v, TC) and isinstance(v.v, (int, float)) and not isinstance(v.v, bool):
+                    ok = float(v.v) == float(want)
+                    run.ob("R-sign", runf.qual, "sgn_basf", ok, f"sgn_basf = {v.v!r} for method_SD = {method!r}" + ("" if ok else f", expected {want:+d}: the model is fitted with the basis function of the other estimator"),
+                           witness=f"{method}:{v.v!r}", file=f, node=node, config=cfg)
+                else:
+                    run.ob("R-sign", runf.qual, "sgn_basf", None, f"the sign handed over for method_SD = {method!r} could not be evaluated", file=f, node=node, config=cfg)
 
 
 def _is_nan(prog, pf, e):
